@@ -225,6 +225,9 @@ where
     // That is, we have to look at all points where the demand curve "steps".
     let offsets = demand
         .steps_iter()
+        // Skip degenerate zero-length "steps" (as yielded first by
+        // `ArrivalCurvePrefix::steps_iter`), for which no closed interval exists.
+        .filter(|delta| delta.is_non_zero())
         // Note that steps_iter() yields interval lengths, but we are interested in
         // offsets. Since the length of an interval [0, A] is A+1, we need to subtract one
         // to obtain the offset.
